@@ -388,7 +388,9 @@ func Main(id, tier string, replayPath string) int {
 				continue
 			}
 			fmt.Printf("HARNESS-ERROR property=%s signature=%s not reproducible: %s\n", id, s, why)
-			exit = 2
+			if exit == 0 {
+				exit = 2
+			}
 			continue
 		}
 		matched := false
@@ -418,9 +420,8 @@ func Main(id, tier string, replayPath string) int {
 		} else {
 			fmt.Printf("  signature=%s\n", s)
 		}
-		if exit == 0 {
-			exit = 1
-		}
+		// a violation that reproduced 5 times out of 5 stands, whatever else did not reproduce
+		exit = 1
 	}
 
 	// evidence
